@@ -16,15 +16,16 @@ def shape_class(nodes):
     return kinds
 
 
-def run_plain(world, case, cfg=None, ctx=None, layout=0, rename_frags=False, reverse_defs=False, initial=None):
+def run_plain(world, case, cfg=None, ctx=None, layout=0, rename_frags=False, reverse_defs=False, initial=None, rename_vars=False):
     """execute the case's request without gates; returns (response, CaseState, DocText)"""
     eng = world.engine(cfg)
-    doc = render.DocText(case["nodes"], layout=layout, rename_frags=rename_frags, reverse_defs=reverse_defs)
+    nodes, vmap = (render.rename_variables(case["nodes"]) if rename_vars else (case["nodes"], {}))
+    doc = render.DocText(nodes, layout=layout, rename_frags=rename_frags, reverse_defs=reverse_defs)
     cs = CaseState(table_of(case["calls"]))
     world.case = cs
     ctx = ctx if ctx is not None else {"ctx": id(cs)}
     cs.ctx = ctx
-    variables = variables_py(case["given"])
+    variables = {vmap.get(k, k): v for k, v in variables_py(case["given"]).items()}
     loop = main_loop()
     try:
         resp = loop.run(eng.execute(doc.text, operation_name=op_name(case), context=ctx, variables=variables, initial_value=initial))
